@@ -299,7 +299,13 @@ impl HistGen {
             Some((i, j)) => {
                 let dn = self.dims[i].name.clone();
                 let old = self.dims[i].attrs[j].name.clone();
-                if bad && self.dims[i].attrs.len() > 1 {
+                if bad && self.rng.chance(1, 3) {
+                    // rename onto its own name (the name is in use: an error, in either kind of dimension)
+                    self.emit(format!("rename_attr M0 {} {} {}", h(&dn), h(&old), h(&old)));
+                } else if bad && self.rng.chance(1, 4) {
+                    // unknown attribute renamed onto a name in use
+                    self.emit(format!("rename_attr M0 {} {} {}", h(&dn), h("ZZ"), h(&old)));
+                } else if bad && self.dims[i].attrs.len() > 1 {
                     // rename onto an existing name
                     let k = (j + 1) % self.dims[i].attrs.len();
                     let new = self.dims[i].attrs[k].name.clone();
